@@ -56,6 +56,29 @@ def coerced {V : Type} (o : ValOps V) (t : FType) (v : V) : V :=
     | none => o.null
   else o.null
 
+/-! ## where coercion is applied: the arguments of a function value (`feel-evaluator/src/builders.rs`) -/
+
+/-- The loop of `eval_function_positional` (`builders.rs:2247`): parameter `i` receives argument `i` coerced to
+the parameter's own type; `none` is the early `return null` when an argument is missing. -/
+def bindLoop {V : Type} (o : ValOps V) : List (String × FType) → List V → Option (List (String × V))
+  | [], _ => some []
+  | _ :: _, [] => none
+  | (k, t) :: ps, a :: as => (bindLoop o ps as).map ((k, o.coerced t a) :: ·)
+
+/-- `eval_function_positional` up to the evaluation of the body: the entries the body is evaluated with
+(`ctx.set_entry` in this order), `none` for "invalid number of arguments". -/
+def bindPositional {V : Type} (o : ValOps V) (ps : List (String × FType)) (args : List V) :
+    Option (List (String × V)) :=
+  if args.length > ps.length then none else bindLoop o ps args
+
+/-- The closure `precedes` of `core::sort` (`bifs/core.rs:920`): the two items under comparison bound to the two
+parameters of the ordering function, each coerced to the type of ITS parameter. -/
+def sortBindings {V : Type} (o : ValOps V) (p q : String × FType) (x y : V) : List (String × V) :=
+  [(p.1, o.coerced p.2 x), (q.1, o.coerced q.2 y)]
+
+/-- `eval_function_definition`: the value of the body coerced to the result type. -/
+def invokeResult {V : Type} (o : ValOps V) (rt : FType) (bodyValue : V) : V := o.coerced rt bodyValue
+
 end ValOps
 end Dmn
 
@@ -94,6 +117,16 @@ def typeOfEntries : List (String × TV) → List (String × FType)
   | [] => []
   | (k, v) :: es => (k, typeOf v) :: typeOfEntries es
 end
+
+/-- `build_instance_of` (`feel-evaluator/src/builders.rs:1055`) on the skeleton of the left operand: a simple
+value answers by its kind (`null` is an instance of `Null` only, every other simple value of its own type and of
+`Any`); a list, context, range or function value is an instance of `Any` and of the type that is structurally
+equal (`==`, the derived `PartialEq`) to its `type_of`. -/
+def instanceOf (v : TV) (t : FType) : Bool :=
+  match v with
+  | .atom .null => FType.beq t .null
+  | .atom k => FType.beq t .any || FType.beq t k
+  | v => FType.beq t .any || FType.beq (typeOf v) t
 
 def ops : ValOps TV where
   typeOf := typeOf
